@@ -51,6 +51,8 @@ TTrunc ==
            /\ \A i \in 1..Len(g) : SameRead(m.items[i].shape, g[i])
            \* and the outcome is what the property says
            /\ Genuine(g)
+           \* opened by path, the same bytes give the same outcome
+           /\ ("byPath" \in DOMAIN e) => (e.byPath.items = g /\ e.byPath.err = e.res.err /\ e.byPath.openErr = e.res.openErr)
            /\ e.res.err \in {"", "io"} /\ e.res.openErr \in {"", "io"}
            /\ (e.which = "shp" /\ e.len >= 100) =>
                  /\ e.res.openErr = ""
